@@ -447,6 +447,139 @@ pub fn worker(ctx: &mut Ctx) {
             ctx.end_case();
         }
     }
+    // 2b. non-words inside Markdown inline and block constructs (the Markdown front-end decides which text the
+    //     spell checker gets to see): flagged at exactly their characters
+    {
+        use harper_core::parsers::Markdown;
+        let md_frames: [(&str, &str); 14] = [("We saw the *", "* here."), ("We saw the **", "** here."), ("We saw the ~~", "~~ here."), ("We have ~~clearly chosen the ", " option~~ here."),
+            ("See [the ", "](http://a.b/c) now."), ("# The ", " chapter"), ("- the ", " item"), ("> the ", " quote"), ("1. the ", " step"), ("| the ", " | b |\n|---|---|\n| c | d |"),
+            ("- [x] ~~Fix the ", " option~~"), ("Some _", "_ text."), ("Line one\nthe ", " continues."), ("\u{1F600} ***", "*** end.")];
+        let n_md = ctx.share(6_000, 200_000);
+        let mut rng = ctx.rng("c06-markdown");
+        let md = Markdown::default();
+        for k in 0..n_md {
+            let w: Vec<char> = (0..rng.range(5, 10)).map(|_| *rng.pick(&letters)).collect();
+            if reference.by_id.contains_key(&fold(&w)) {
+                continue;
+            }
+            let f = md_frames[rng.below(md_frames.len())];
+            let t = format!("{}{}{}", f.0, s(&w), f.1);
+            let (ws, we) = (f.0.chars().count(), f.0.chars().count() + w.len());
+            let gi = rng.below(groups.len());
+            let sentinel = k % 256 == 0;
+            if sentinel && !ctx.begin_case(|| json!({"fam": "c06-markdown", "text": t}).to_string()) {
+                continue;
+            }
+            ctx.report.evaluations += 1;
+            let doc = Document::new(&t, &md, &dict);
+            let (d, lg) = &mut groups[gi];
+            let lints = lg.lint(&doc);
+            let sp = spelling(&lints);
+            if !sp.iter().any(|l| l.span.start == ws && l.span.end == we) {
+                let near: Vec<String> = sp.iter().map(|l| format!("{}..{}", l.span.start, l.span.end)).collect();
+                let construct = f.0.trim_start_matches(|c: char| c.is_alphanumeric() || c == ' ' || c == '\n' || c == '\u{1F600}').chars().take(6).collect::<String>();
+                ctx.report.finding("C06", &format!("unlisted-word@markdown/not-flagged/{}", construct.trim()), t.len(), || json!({"text": t, "parser": "Markdown", "dialect": dialect_name(*d)}), || {
+                    format!("{:?} is in no capitalisation in the dictionary but has no spelling lint at {ws}..{we} (spelling lints: {:?})", s(&w), near)
+                });
+            }
+            ctx.report.nontrivial(fnv_mix(fnv(t.as_bytes()), 78));
+            if sentinel {
+                ctx.end_case();
+            }
+        }
+    }
+    // 2c. long plain documents (tens of thousands of characters): listed words separated by single spaces with an
+    //     unlisted string now and then; exactly the unlisted strings are flagged, wherever they lie in the text
+    {
+        let n_long = ctx.share(16, 640);
+        let mut rng = ctx.rng("c06-long");
+        let cands: Vec<&Vec<char>> = words.iter().filter(|w| w.len() >= 3 && w.len() <= 12 && w.iter().all(|c| c.is_ascii_lowercase()) && dict.get_word_metadata(w).is_some_and(|m| m.dialect.is_none())).collect();
+        for k in 0..n_long {
+            if cands.is_empty() {
+                break;
+            }
+            let target = rng.range(20_000, 70_000);
+            let mut t = String::new();
+            let mut n = 0usize;
+            let mut planted: Vec<(usize, usize)> = Vec::new();
+            let mut used: Vec<&Vec<char>> = Vec::new();
+            while n < target {
+                if !t.is_empty() {
+                    t.push(' ');
+                    n += 1;
+                }
+                if rng.chance(1, 40) {
+                    let w: Vec<char> = (0..rng.range(6, 10)).map(|_| *rng.pick(&letters)).collect();
+                    if !reference.by_id.contains_key(&fold(&w)) {
+                        planted.push((n, n + w.len()));
+                        t.push_str(&s(&w));
+                        n += w.len();
+                        continue;
+                    }
+                }
+                let w = *rng.pick(&cands);
+                used.push(w);
+                t.push_str(&s(w));
+                n += w.len();
+            }
+            if !ctx.begin_case(|| json!({"fam": "c06-long", "chars": n, "seed_index": k}).to_string()) {
+                continue;
+            }
+            ctx.report.evaluations += 1;
+            let (d, lg) = &mut groups[0];
+            let doc = Document::new(&t, &PlainEnglish, &dict);
+            let lints = lg.lint(&doc);
+            let sp: Vec<(usize, usize)> = spelling(&lints).iter().map(|l| (l.span.start, l.span.end)).collect();
+            let chars: Vec<char> = t.chars().collect();
+            // a listed word that is flagged on its own is somebody else's finding (case twins): leave those out
+            let mut alone_bad: std::collections::HashSet<String> = Default::default();
+            for (a, b) in &sp {
+                if !planted.contains(&(*a, *b)) {
+                    let frag: String = chars[*a..(*b).min(chars.len())].iter().collect();
+                    // the whole word around the flagged characters
+                    let mut ws = *a;
+                    while ws > 0 && chars[ws - 1] != ' ' {
+                        ws -= 1;
+                    }
+                    let mut we = *b;
+                    while we < chars.len() && chars[we] != ' ' {
+                        we += 1;
+                    }
+                    let whole: String = chars[ws..we].iter().collect();
+                    let is_planted = planted.iter().any(|(pa, pb)| *pa == ws && *pb == we);
+                    let alone = !is_planted && {
+                        let dd = Document::new(&whole, &PlainEnglish, &dict);
+                        !spelling(&lg.lint(&dd)).is_empty()
+                    };
+                    if alone {
+                        alone_bad.insert(whole);
+                        continue;
+                    }
+                    ctx.report.finding("C06", if is_planted { "long-document.unlisted-span" } else { "long-document.listed-flagged" }, t.len(),
+                        || json!({"document_chars": n, "around": chars[ws.saturating_sub(30)..(we + 30).min(chars.len())].iter().collect::<String>(), "offset": a, "dialect": dialect_name(*d)}), || {
+                        format!("in a {n}-character plain document the characters {a}..{b} ({frag:?}, part of {whole:?} at {ws}..{we}) are reported as a spelling error; alone, {whole:?} is {}", if is_planted { "reported as one word" } else { "accepted" })
+                    });
+                    break;
+                }
+            }
+            for (a, b) in &planted {
+                if !sp.contains(&(*a, *b)) {
+                    let whole: String = chars[*a..*b].iter().collect();
+                    ctx.report.finding("C06", "long-document.unlisted-not-flagged", t.len(), || json!({"document_chars": n, "offset": a, "word": whole, "dialect": dialect_name(*d)}), || {
+                        format!("in a {n}-character plain document the unlisted string {whole:?} at {a}..{b} has no spelling lint with exactly that span")
+                    });
+                    break;
+                }
+            }
+            ctx.report.nontrivial(fnv_mix(n as u64, planted.len() as u64));
+            ctx.report.count("long_document_chars", n as u64);
+            if ctx.report.samples.len() < 8 && k == 0 {
+                ctx.report.samples.push(json!({"long_document_chars": n, "unlisted_strings_planted": planted.len(), "expect": "exactly those are flagged"}));
+            }
+            let _ = used;
+            ctx.end_case();
+        }
+    }
     // 3. words tagged with one dialect, checked under the other dialects, twice each (the second
     //    pass is a word-cache hit): every suggestion must belong to the active dialect
     let tagged: Vec<&Vec<char>> = words.iter().filter(|w| dict.get_word_metadata(w).and_then(|m| m.dialect).is_some() && w.iter().all(|c| c.is_alphabetic())).collect();
